@@ -84,7 +84,7 @@ Definition enabled (st : state) (a : action) : Prop :=
   match a with
   | ABodyImport r => (exists n, jimp st = Some (mkImp n None)) /\ resp_t st r
   | ABodyTag _ => exists j, jtag st = Some j /\ tj_res j = None
-  | ABodyConvert => exists j, jconv st = Some j /\ cj_done j = false
+  | ABodyConvert _ => exists j, jconv st = Some j /\ cj_done j = false
   | ABodyMerge => exists j, jmerge st = Some j /\ mj_res j = None
   | AComplete j => fires j st
   | _ => False
@@ -439,14 +439,14 @@ Proof.
 Qed.
 
 (* ---------------------------------------------------------------- converter job body *)
-Lemma fold_guard2 (cch : N -> option N) nx l : forall acc i,
-  mem i (fold_left (fun a x => match cch x with Some _ => a | None => if x <? nx then add1 x a else a end) l acc) = true ->
+Lemma fold_guard2 (cch : N -> option N) bad nx c l : forall acc i,
+  mem i (fold_left (fun a x => match cch x with Some _ => a | None => if conv_ok bad nx c x then add1 x a else a end) l acc) = true ->
   mem i acc = true \/ (i < nx /\ cch i = None).
 Proof.
   induction l; simpl; intros acc i H; [left; exact H|].
   apply IHl in H. destruct H as [H|H]; [|right; exact H].
   destruct (cch a) eqn:E; [left; exact H|].
-  destruct (N.ltb_spec a nx); [|left; exact H].
+  destruct (conv_ok bad nx c a) eqn:CO; [apply conv_ok_lt in CO|left; exact H].
   rewrite mem_add1 in H. apply orb_true_iff in H. destruct H as [H|H]; [left; exact H|].
   apply N.eqb_eq in H. subst. right. split; assumption.
 Qed.
@@ -491,27 +491,27 @@ Proof.
   intros I M. apply G. right. split; assumption.
 Qed.
 
-Definition bconv_sets (st : state) (j : convjob) : list (N * N) :=
+Definition bconv_sets (bad : list (N * N)) (st : state) (j : convjob) : list (N * N) :=
   map (fun cs => (fst cs, fold_left (fun a i => match cache st (fst cs) i with
                                                | Some _ => a
-                                               | None => if i <? cj_next j then add1 i a else a end)
+                                               | None => if conv_ok bad (cj_next j) (fst cs) i then add1 i a else a end)
                                     (elems (snd cs)) 0)) (cj_sets j).
 
-Definition bconv_state (st : state) (j : convjob) : state :=
+Definition bconv_state (bad : list (N * N)) (st : state) (j : convjob) : state :=
   set_jconv (set_cache st (fun c i => match cache st c i with
                                       | Some v => Some v
-                                      | None => if mem i (lookupN c (bconv_sets st j)) then Some (cj_ver j i) else None
+                                      | None => if mem i (lookupN c (bconv_sets bad st j)) then Some (cj_ver j i) else None
                                       end))
-            (Some (mkCj (bconv_sets st j) (cj_ver j) (cj_next j) true)).
+            (Some (mkCj (bconv_sets bad st j) (cj_ver j) (cj_next j) true)).
 
-Lemma bconv_eq st p j : jconv st = Some j -> cj_done j = false -> step repaired p ABodyConvert st = bconv_state st j.
+Lemma bconv_eq st p bad j : jconv st = Some j -> cj_done j = false -> step repaired p (ABodyConvert bad) st = bconv_state bad st j.
 Proof. intros J D. simpl. rewrite J, D. reflexivity. Qed.
 
-Lemma dec_bconv st p j : Cinv st -> convs_ok st -> jconv st = Some j -> cj_done j = false ->
-  lexlt (mu (step repaired p ABodyConvert st)) (mu st).
+Lemma dec_bconv st p bad j : Cinv st -> convs_ok st -> jconv st = Some j -> cj_done j = false ->
+  lexlt (mu (step repaired p (ABodyConvert bad) st)) (mu st).
 Proof.
   intros (CA & CB & _) (ND & NJ0) J D. destruct (CB j J) as (LN & MC & _). destruct (NJ0 j J) as (NJ & _).
-  rewrite (bconv_eq st p j J D). set (st' := bconv_state st j). set (sets' := bconv_sets st j).
+  rewrite (bconv_eq st p bad j J D). set (st' := bconv_state bad st j). set (sets' := bconv_sets bad st j).
   assert (forall i, doomed st' i = doomed st i) as DM by (intros i; unfold doomed, st', bconv_state; simpl; rewrite J; reflexivity).
   assert (forall c i, cache st' c i = match cache st c i with Some v => Some v
              | None => if mem i (lookupN c sets') then Some (cj_ver j i) else None end) as CE by reflexivity.
@@ -1075,9 +1075,9 @@ Proof.
   split; [exact L1|split; [exact L2|]]. intros m E. inversion E; subst. reflexivity.
 Qed.
 
-Lemma tcore_bconv st p j : Tcore st -> jconv st = Some j -> cj_done j = false -> Tcore (step repaired p ABodyConvert st).
+Lemma tcore_bconv st p bad j : Tcore st -> jconv st = Some j -> cj_done j = false -> Tcore (step repaired p (ABodyConvert bad) st).
 Proof.
-  intros H J D. rewrite (bconv_eq st p j J D).
+  intros H J D. rewrite (bconv_eq st p bad j J D).
   pose proof H as (A1 & A2 & A3 & A4 & A5 & A6 & A7 & A8 & A9 & A10 & A11 & A12).
   split; [exact A1|split; [exact A2|split; [exact A3|split; [exact A4|split; [exact A5|split; [exact A6|split; [exact A7|
     split; [exact A8|split; [exact A9|split; [|split; [exact A11|exact A12]]]]]]]]]]].
@@ -1372,7 +1372,7 @@ Proof.
     + apply (NE (ABodyTag [])). simpl. exists j. split; assumption.
   - destruct (jconv st) as [j|] eqn:J; [|reflexivity]. exfalso. destruct (cj_done j) eqn:D.
     + apply (NE (AComplete JConvert)). simpl. exists j. split; assumption.
-    + apply (NE ABodyConvert). simpl. exists j. split; assumption.
+    + apply (NE (ABodyConvert [])). simpl. exists j. split; assumption.
   - destruct (jmerge st) as [j|] eqn:J; [|reflexivity]. exfalso. destruct (mj_res j) as [m|] eqn:R.
     + apply (NE (AComplete JMerge)). simpl. exists j, m. split; assumption.
     + apply (NE ABodyMerge). simpl. exists j. split; assumption.
